@@ -413,6 +413,8 @@ def targets(ctx):
         yield {"matrix": "service_names"}
         yield {"matrix": "types_named_like_wkt"}
         yield {"matrix": "single_construct_shapes"}
+        yield {"matrix": "non_ascii_comments"}
+        yield {"matrix": "non_ascii_comments", "locale": "C"}
 
     def service_files():
         body = "message Q { int32 a = 1; }\n" + "".join(
@@ -446,7 +448,17 @@ def targets(ctx):
                 return Eval(fails, weight=len(SVC_NAMES), nontrivial_count=len(SVC_NAMES), labels=["matrix:service_names"])
             finally:
                 c.cleanup()
-        if case["matrix"] == "single_construct_shapes":
+        extra_env = None
+        if case["matrix"] == "non_ascii_comments":
+            # comments in other scripts; once more with the plugin process in a non-UTF-8 locale (LC_ALL=C without Python's
+            # UTF-8 mode / locale coercion): what the plugin hands to the formatter must not depend on it
+            files = {"i18n.proto": 'syntax = "proto3";\npackage i18n;\n// Gr\u00fc\u00dfe aus K\u00f6ln \u2013 \u65e5\u672c\u8a9e\u306e\u30b3\u30e1\u30f3\u30c8 \U0001F600\n'
+                                   'message Gru\u00df_ { // \u00e9t\u00e9\n  int32 a = 1; // \u0416\n  int32 mk20001 = 20001;\n}\n'.replace("Gru\u00df_", "Gruss")
+                                   + '// \u00fcber enum\nenum Stufe { STUFE_NULL = 0; STUFE_MINUS = -2; // \u4e8c\n  STUFE_MK = 20002; }\n'
+                                   'service Dienst { // \u30b5\u30fc\u30d3\u30b9\n  rpc Tu (Gruss) returns (Gruss); // \u00df\n}\n'}
+            if case.get("locale") == "C":
+                extra_env = {"LC_ALL": "C", "LANG": "C", "PYTHONUTF8": "0", "PYTHONCOERCECLOCALE": "0", "PYTHONIOENCODING": ""}
+        elif case["matrix"] == "single_construct_shapes":
             # one package per construct / oneof shape / position of a builtin-named field (vf/props/_shapes.py)
             from ._shapes import SINGLE_CONSTRUCT
 
@@ -458,7 +470,7 @@ def targets(ctx):
             files = {"wktlike.proto": open(os.path.join(env.VERIF, "protos", "wktlike.proto")).read()}
         else:
             files = GOOGLE_PKGS if case["matrix"] == "google_packages" else matrix_files(case["matrix"])
-        c = gen.compile_files(files, tag="c03m_")
+        c = gen.compile_files(files, tag="c03m_", extra_env=extra_env)
         try:
             found = validate_by_name(c)
             fails = []
@@ -468,7 +480,7 @@ def targets(ctx):
                 nm = MATRIX_NAMES[int(mm.group(1))] if mm else "-"
                 fails.append(Failure(cl, f"matrix|{case['matrix']}|{cl}|{where}|name:{nm}", d))
             n = len(GOOGLE_PKGS) if case["matrix"] == "google_packages" else len(MATRIX_NAMES)
-            return Eval(fails, weight=n, nontrivial_count=n, labels=[f"matrix:{case['matrix']}"])
+            return Eval(fails, weight=n, nontrivial_count=n, labels=[f"matrix:{case['matrix']}" + (":locale_" + case["locale"] if case.get("locale") else "")])
         finally:
             c.cleanup()
 
